@@ -111,6 +111,9 @@ def check(prop, tier, seed, only=None, jobs=None, budget=None, max_wall=None):
     insts = mod.instances(tier)
     if only:
         insts = [i for i in insts if any(o in i[0] for o in only)]
+    if not insts:
+        print("INCONCLUSIVE: no instance selected")
+        return 2
     import random
 
     random.Random(seed).shuffle(insts)  # VERIF_SEED permutes the visiting order only
